@@ -1837,9 +1837,15 @@ where
             || is_ident_uint_data_type(self.state.cddl, ident)
             || is_ident_byte_string_data_type(self.state.cddl, ident) =>
         {
-          self.state.ctrl = Some(ctrl);
-          self.visit_type2(controller)?;
-          self.state.ctrl = None;
+          // the value must belong to the target type before its size is
+          // compared (`tstr .size 1` must not accept the number 1)
+          let error_count = self.errors.len();
+          self.visit_type2(target)?;
+          if self.errors.len() == error_count {
+            self.state.ctrl = Some(ctrl);
+            self.visit_type2(controller)?;
+            self.state.ctrl = None;
+          }
           Ok(())
         }
         _ => {
